@@ -14,6 +14,12 @@ History = [('init', cfg, width, depth), ev, ev, ...]; events
     ('dels', H, seg)  ('deln', H, P)  ('delnraw', H, raw)  ('copy', H)  ('Q',) = query battery
 H in R (tree / base node), Rc (first child loop), Rs (anchor segment node), C (copy of R), Cc (first child loop of C),
 K (copy of Rc).  P = (ups, loops, seg, qual, ele, sub).
+
+Alphabets are derived from the initial tree and the grammar (templates()): 'wide' = every element path present (with and
+without qualifier, whole composite / sub-element / beyond the end / cleared), every direct child for delete_segment, every
+node path for delete_node, up to two insertable segments / loops per position class (anchor, earlier, same position, between,
+later, duplicate, not a member), '../' forms, absent and malformed paths; 'narrow' / 'small' / 'mini' keep the first template
+of each class (SEL).  Finding keys: C10|<method>|raises <T>@<where>  or  C10|<method>@<tree|segnode|copy>|<symptom class>.
 """
 import io, multiprocessing, hashlib, traceback
 from mc import core, grammar
@@ -622,7 +628,6 @@ def step(ms, im, ev, counters=None, check=True):
     result = 'ok'
     exp_ret = None
     check_ret = None
-    adopt = None
 
     # ---- model + call ---------------------------------------------------------------------------
     if op == 'set':
@@ -1383,6 +1388,7 @@ def search(R, name, width, depth, max_states):
                 break
             chunks = core.chunks(R.order(frontier), core.NPROC * 6)
             nxt = []
+            cands = []
             ntrans = 0
             for res in pool.imap_unordered(expand_chunk, chunks):
                 if isinstance(res, tuple) and res and res[0] == 'HARNESS':
@@ -1393,10 +1399,13 @@ def search(R, name, width, depth, max_states):
                 R.merge(P)
                 for hist, ev, key in succ:
                     if key not in seen:
-                        seen.add(key)
-                        nxt.append(hist + [ev])
-            nxt.sort(key=repr)
-            # one representative per key must not depend on pool scheduling: keep the smallest history per key
+                        cands.append((repr(hist + [ev]), hist + [ev], key))
+            # the representative of a state must not depend on pool scheduling: smallest history per key
+            cands.sort(key=lambda c: c[0])
+            for _, h, key in cands:
+                if key not in seen:
+                    seen.add(key)
+                    nxt.append(h)
             levels.append({'depth': lvl, 'states_expanded': len(frontier), 'transitions': ntrans, 'new_states': len(nxt)})
             if nxt:
                 R.total.sample({'search': '%s/%s' % (name, width), 'history': pretty_hist(nxt[len(nxt) // 2])}, cap=6)
@@ -1423,8 +1432,8 @@ def evaluate(case):
 def run(R):
     _bind()
     if R.thorough:
-        plan = [('837p:2300', 'wide', 2), ('834:2000', 'wide', 2), ('837p:2300', 'narrow', 3), ('834:2000', 'narrow', 3),
-                ('837p:2000B/2300', 'narrow', 3), ('837p:2300', 'tiny', 4), ('834:2000', 'tiny', 4)]
+        plan = [('837p:2300', 'wide', 2), ('834:2000', 'wide', 2), ('837p:2300', 'narrow', 4), ('834:2000', 'narrow', 4),
+                ('837p:2000B/2300', 'narrow', 3), ('837p:2000B/2300', 'tiny', 4)]
     else:
         plan = [('837p:2300', 'wide', 1), ('834:2000', 'wide', 1), ('837p:2300', 'narrow', 3), ('834:2000', 'narrow', 3),
                 ('837p:2000B/2300', 'narrow', 2)]
